@@ -151,9 +151,32 @@ pub fn run(kind: &str, seed: u64, args: &BTreeMap<String, String>, out: &mut dyn
                         if gy::self_check(&st).is_err() {
                             continue;
                         }
-                        let line = json!({"text_hex": hex(&st.bytes), "docs": st.docs.iter().map(|d| d.to_tagged()).collect::<Vec<_>>(),
+                        let mut line = json!({"text_hex": hex(&st.bytes), "docs": st.docs.iter().map(|d| d.to_tagged()).collect::<Vec<_>>(),
                             "features": st.features, "line_break": st.line_break.name(),
                             "trigger": st.trigger, "clean": st.clean});
+                        if let Some(k) = args.get("spans").and_then(|s| s.parse::<usize>().ok()) {
+                            let mut picks: Vec<usize> = (0..st.spans.len()).collect();
+                            r.shuffle(&mut picks);
+                            picks.truncate(k);
+                            let spans: Vec<serde_json::Value> = picks
+                                .iter()
+                                .filter_map(|&i| {
+                                    let sp = &st.spans[i];
+                                    let v = gy::val_at(st.docs.get(sp.doc)?, &sp.path)?;
+                                    let own = if sp.is_key {
+                                        match sp.path.last() {
+                                            Some(gy::PathSeg::Key(k)) => Val::Str(k.clone()),
+                                            _ => return None,
+                                        }
+                                    } else {
+                                        v.clone()
+                                    };
+                                    Some(json!({"start": sp.start, "end": sp.end, "doc": sp.doc, "is_key": sp.is_key, "style": sp.style,
+                                                "value": v.to_tagged(), "own": own.to_tagged()}))
+                                })
+                                .collect();
+                            line["spans"] = json!(spans);
+                        }
                         writeln!(out, "{line}").map_err(|e| e.to_string())?;
                         emitted += 1;
                     }
